@@ -5,6 +5,7 @@ NAME_POOL = [
     "ophelia", "claudius", "x", "dagger", "oph-elia", "a.b", "c+d", "o'neil", "two words", "ünï",
     "x_rig_WORK", "v001", "sq010", "sh0010", "ma", "char", "s", "a", "A", "hamlet", "node1", "Ophelia",
     "a-b", "a_b", "0", "w", "model",
+    "caf\udce9",                 # a lone surrogate: what os.listdir / os.fsdecode give for a file name that is not valid UTF-8
     "cafe\u0301", "\u212bngstrom", "\U00020bb7\u91ce", "{x}", "{}", "a}b", "{0}",       # non-NFC, non-BMP; braces (str.format syntax)
 ]
 SAFE_NAME_POOL = ["ophelia", "claudius", "x", "dagger", "oph-elia", "a.b", "c+d", "a-b", "yorick", "skull", "b", "node1",
